@@ -115,6 +115,18 @@ func (_this *Session) GetBuilderGeneratorForType(dstType reflect.Type) BuilderGe
 		return storedBuilderGenerator.(BuilderGenerator)
 	}
 
+	defer func() {
+		if builderGenerator == nil {
+			// Generating the builder failed (panicked). Don't leave the
+			// placeholder behind: it would block every later user of this type.
+			_this.builderGenerators.Delete(dstType)
+			builderGenerator = func(*Context) Builder {
+				panic(fmt.Errorf("no builder could be generated for type %v", dstType))
+			}
+			wg.Done()
+		}
+	}()
+
 	builderGenerator = _this.defaultBuilderGeneratorForType(dstType)
 	wg.Done()
 	_this.builderGenerators.Store(dstType, builderGenerator)
